@@ -360,7 +360,57 @@ def r10_6(run, model):
     run.floor("literal parse sites with a typed fallback", n, 12)
 
 
+def r10_12(run, model):
+    run.rule("R10.12", "out-of-range float literals are rejected at every float type: in ensure_float_literal_fits nothing that depends on the "
+                       "literal's type can return before the `is_finite` test (parsing an over-large decimal gives +inf, and that test is "
+                       "the only range check float64 has)")
+    f = model.fn("ensure_float_literal_fits", CHECK, impl="Typer")
+    fin = [c for c in S.walk(f.body) if c["k"] == "MethodCall" and c["method"] in ("is_finite", "is_infinite", "is_nan")]
+    if not fin:
+        run.ob("R10.12", "ensure_float_literal_fits|finiteness is tested", False, site(CHECK, f.node["sp"]), "no is_finite / is_infinite test in the function",
+               witness="a float64 literal with 309 integer digits is accepted and emitted as `inf`")
+        return
+    pos = min((c["sp"][0], c["sp"][1]) for c in fin)
+    early = [r for r in S.walk(f.body) if r["k"] == "Return" and (r["sp"][0], r["sp"][1]) < pos]
+    run.ob("R10.12", "ensure_float_literal_fits|no return precedes the finiteness test", not early, site(CHECK, (early or fin)[0]["sp"]),
+           f"returns before the is_finite test: {len(early)}",
+           witness="let big: float64 = 1 followed by 309 zeros .0 : the early return for `not float32` skips is_finite, Go gets `var big float64 = inf`")
+
+
+def r10_13(run, model):
+    run.rule("R10.13", "a float32 literal is emitted as exactly the value it denotes: go_literal_from_primitive widens the f32 with `as f64` (exact) - "
+                       "any detour through text yields a shorter decimal that is a different real number, and Go evaluates constant "
+                       "expressions exactly (0.1f32 + 0.6f32 would round once instead of per operation)")
+    f = model.fn("go_literal_from_primitive", GOC)
+    n = 0
+    for iff in S.find(f.body, "If"):
+        ct = S.norm_ws(run.facts.text(GOC, iff["cond"]["sp"]))
+        m = re.search(r"Some\((\w+)\)=\w+\.as_float32\(\)", ct)
+        if not m:
+            continue
+        v = m.group(1)
+        for st in S.walk(iff["then"]):
+            if st["k"] != "Struct" or st["segs"][-1] != "Float":
+                continue
+            val = next((fl["expr"] for fl in st["fields"] if fl["name"] == "value"), None)
+            if val is None:
+                continue
+            n += 1
+            e = val
+            while e["k"] == "Paren":
+                e = e["expr"]
+            exact = e["k"] == "Cast" and S.norm_ws(str(e.get("ty"))) == "f64" and S.is_path(e["expr"], v)
+            run.ob("R10.13", "go_literal_from_primitive|float32 literal widened exactly", exact, site(GOC, st["sp"]),
+                   f"value: {S.norm_ws(run.facts.text(GOC, val['sp']))[:70]}",
+                   witness="0.1f32 + 0.6f32 emitted as `0.1 + 0.6`: Go folds the constant exactly and rounds once to 0.699999988; single-precision "
+                           "arithmetic gives 0.700000048")
+    if n == 0:
+        raise AnalysisIncomplete("go_literal_from_primitive: float32 branch not found")
+
+
 def run(run, model):
+    run.try_rule(r10_12, model)
+    run.try_rule(r10_13, model)
     run.try_rule(r10_6, model)
     run.try_rule(r10_7, model)
     run.try_rule(r10_8, model)
